@@ -1938,3 +1938,229 @@ Proof.
   exists ls. split; [reflexivity|]. destruct H as [_ H]. cbn [unres] in H. rewrite H.
   unfold spec_leaves, top, elem_leaves. cbn [is_in b2n]. rewrite Nat.add_0_r. reflexivity.
 Qed.
+
+(* ================================================================== every error kind is raised only for its defect *)
+Lemma heads_nth_conv p rest : forall hs tails, heads p rest = Some (hs, tails) ->
+  (forall h t, nth_error tails h = Some t -> exists m, nth_error rest h = Some ((p, m) :: t) /\ nth_error hs h = Some m) /\
+  (forall h m, nth_error hs h = Some m -> exists t, nth_error rest h = Some ((p, m) :: t)).
+Proof.
+  induction rest as [|l0 rest IH]; intros hs tails H; simpl in H.
+  - inversion H; subst. split; intros [|h] ? E; discriminate.
+  - destruct l0 as [|[q m] t]; [discriminate|]. destruct (path_eqb p q) eqn:E; [|discriminate].
+    apply path_eqb_eq in E. subst q. destruct (heads p rest) as [[hs' ts']|]; [|discriminate].
+    inversion H; subst. destruct (IH hs' ts' eq_refl) as [I1 I2]. split.
+    + intros [|h] t' Ht; simpl in *; [inversion Ht; subst; eauto|apply I1; exact Ht].
+    + intros [|h] m' Hm; simpl in *; [inversion Hm; subst; eauto|apply I2; exact Hm].
+Qed.
+
+(* ms is what the lock step sees at path p: the h-th member comes from the h-th list *)
+Definition rowlike (p : list Z) (ms : list member) (lists : list (list entry)) : Prop :=
+  forall h m, nth_error ms h = Some m -> exists l, nth_error lists h = Some l /\ In (p, m) l.
+
+Lemma conn_loop_err objs f0 : forall rest st e, conn_loop objs f0 rest st = Err e ->
+  (e = EMissing /\ transpose f0 rest = None) \/
+  (exists p ms st0, step objs p ms st0 = Err e /\ rowlike p ms (f0 :: rest)).
+Proof.
+  induction f0 as [|[p m] t0 IH]; intros rest st e H; simpl in H.
+  - destruct (forallb is_nil rest) eqn:E; [discriminate|]. inversion H; subst. left. simpl. rewrite E. auto.
+  - destruct (heads p rest) as [[hs tails]|] eqn:Eh.
+    + destruct (heads_nth_conv _ _ _ _ Eh) as [C1 C2].
+      destruct (step objs p (m :: hs) st) as [st1|e1] eqn:Es.
+      * destruct (IH _ _ _ H) as [[-> Ht]|(p' & ms' & st0 & Hs & Hr)].
+        -- left. split; [reflexivity|]. simpl. rewrite Eh, Ht. reflexivity.
+        -- right. exists p', ms', st0. split; [exact Hs|]. intros h m' Hm. destruct (Hr h m' Hm) as (l & Hl & Hin).
+           destruct h as [|h]; simpl in *.
+           ++ inversion Hl; subst. eexists; split; [reflexivity|right; exact Hin].
+           ++ destruct (C1 _ _ Hl) as (m2 & Hrest & _). eexists; split; [exact Hrest|right; exact Hin].
+      * inversion H; subst. right. exists p, (m :: hs), st. split; [exact Es|]. intros [|h] m' Hm; simpl in *.
+        -- inversion Hm; subst. eexists; split; [reflexivity|left; reflexivity].
+        -- destruct (C2 _ _ Hm) as (t & Hrest). eexists; split; [exact Hrest|left; reflexivity].
+    + inversion H; subst. left. simpl. rewrite Eh. auto.
+Qed.
+
+Lemma check_wi_some w0 i0 l e : check_wi w0 i0 l = Some e ->
+  (e = EWidth /\ exists t, In t l /\ width (m_shape (snd t)) <> w0) \/
+  (e = EInit /\ exists t, In t l /\ m_init (snd t) <> i0).
+Proof.
+  induction l as [|[h m] l IH]; simpl; [discriminate|].
+  destruct (w0 =? width (m_shape m)) eqn:Ew; simpl.
+  - destruct (i0 =? m_init m) eqn:Ei; simpl.
+    + intros H. destruct (IH H) as [[-> (t & Ht & Hw)]|[-> (t & Ht & Hw)]]; [left|right]; split; eauto.
+    + intros H; inversion H; subst. right. split; [reflexivity|]. exists (h, m). split; [auto|]. simpl.
+      apply Z.eqb_neq in Ei. congruence.
+  - intros H; inversion H; subst. left. split; [reflexivity|]. exists (h, m). split; [auto|]. simpl.
+    apply Z.eqb_neq in Ew. congruence.
+Qed.
+
+Lemma concat_res_err {A} (l : list (res (list A))) e : concat_res l = Err e -> In (Err e) l.
+Proof.
+  induction l as [|x l IH]; simpl; [discriminate|]. destruct x as [a|e']; [|intros H; inversion H; auto].
+  destruct (concat_res l); [discriminate|]. intros H; inversion H; subst. right. apply IH. reflexivity.
+Qed.
+
+(* what went wrong in one lock step *)
+Inductive step_defect (objs : list obj) (p : list Z) (ms : list member) : cerr -> Prop :=
+| sd_kind h h' m m' : nth_error ms h = Some m -> nth_error ms h' = Some m' -> m_is_port m = false -> m_is_port m' = true ->
+    step_defect objs p ms ESigPort
+| sd_width h h' m m' : nth_error ms h = Some m -> nth_error ms h' = Some m' -> m_is_port m = true -> m_is_port m' = true ->
+    width (m_shape m) <> width (m_shape m') -> step_defect objs p ms EWidth
+| sd_init h h' m m' : nth_error ms h = Some m -> nth_error ms h' = Some m' -> m_is_port m = true -> m_is_port m' = true ->
+    m_init m <> m_init m' -> step_defect objs p ms EInit
+| sd_several h h' m m' : nth_error ms h = Some m -> nth_error ms h' = Some m' -> h <> h' ->
+    is_out_port (h, m) = true -> is_out_port (h', m') = true -> step_defect objs p ms ESeveral
+| sd_dims h h' m m' : nth_error ms h = Some m -> nth_error ms h' = Some m' ->
+    is_in_port (h, m) = true -> is_out_port (h', m') = true -> m_dims m' <> m_dims m -> step_defect objs p ms EAssertDims
+| sd_leaf h h' m m' idx e : nth_error ms h = Some m -> nth_error ms h' = Some m' ->
+    is_in_port (h, m) = true -> is_out_port (h', m') = true -> m_dims m' = m_dims m -> In idx (idx_paths (m_dims m')) ->
+    connect_value objs (h, PNs p ++ idx) (h', PNs p ++ idx) = Err e -> step_defect objs p ms e.
+
+Lemma step_err objs p ms st e : step objs p ms st = Err e -> step_defect objs p ms e.
+Proof.
+  unfold step. set (t := tag_from 0 ms). set (outs := filter is_out_port t). set (ins := filter is_in_port t).
+  set (sigs := filter is_sig_kind t).
+  assert (Hin : forall x, In x ins -> nth_error ms (fst x) = Some (snd x) /\ is_in_port x = true).
+  { intros [h m] Hx. unfold ins in Hx. apply filter_In in Hx. destruct Hx as [H1 H2]. apply in_tags in H1. auto. }
+  assert (Hout : forall x, In x outs -> nth_error ms (fst x) = Some (snd x) /\ is_out_port x = true).
+  { intros [h m] Hx. unfold outs in Hx. apply filter_In in Hx. destruct Hx as [H1 H2]. apply in_tags in H1. auto. }
+  assert (Hio : forall x, In x (ins ++ outs) -> nth_error ms (fst x) = Some (snd x) /\ m_is_port (snd x) = true).
+  { intros x Hx. apply in_app_or in Hx. destruct Hx as [Hx|Hx].
+    - destruct (Hin x Hx) as [H1 H2]. apply in_port_iff in H2. tauto.
+    - destruct (Hout x Hx) as [H1 H2]. apply out_port_iff in H2. tauto. }
+  destruct (nonempty sigs && (nonempty outs || nonempty ins)) eqn:E1.
+  - intros H; inversion H; subst. apply andb_prop in E1. destruct E1 as [Es Ep].
+    assert (exists s, In s t /\ is_sig_kind s = true) as ([hs ms_] & Hs1 & Hs2).
+    { apply (nonempty_filter is_sig_kind t). exact Es. }
+    assert (exists x, In x (ins ++ outs)) as (x & Hx).
+    { destruct outs as [|o ?]; [destruct ins as [|i ?]; [discriminate|exists i; left; reflexivity]|].
+      exists o. apply in_or_app. right. left. reflexivity. }
+    destruct (Hio x Hx) as [Hx1 Hx2]. apply in_tags in Hs1.
+    eapply (sd_kind objs p ms hs (fst x)); eauto. unfold is_sig_kind, m_is_iface in Hs2. simpl in Hs2.
+    destruct (m_is_port ms_); [discriminate|reflexivity].
+  - destruct (nonempty sigs); [discriminate|]. destruct st as [[cs ai] ao].
+    destruct (ins ++ outs) as [|[h0 m0] r] eqn:El; [discriminate|].
+    assert (H0 : nth_error ms h0 = Some m0 /\ m_is_port m0 = true) by (apply (Hio (h0, m0)); left; reflexivity).
+    destruct (check_wi (width (m_shape m0)) (m_init m0) r) as [e'|] eqn:Ec.
+    + intros H; inversion H; subst.
+      destruct (check_wi_some _ _ _ _ Ec) as [[-> (x & Hx & Hw)]|[-> (x & Hx & Hw)]];
+        destruct (Hio x (or_intror Hx)) as [Hx1 Hx2].
+      * destruct H0 as [H01 H02]. apply (sd_width objs p ms (fst x) h0 (snd x) m0); auto.
+      * destruct H0 as [H01 H02]. apply (sd_init objs p ms (fst x) h0 (snd x) m0); auto.
+    + destruct outs as [|o [|o2 r2]] eqn:Eo; [discriminate| |].
+      * destruct (concat_res (map (connect_in objs p o) ins)) as [new|e'] eqn:En; [discriminate|].
+        intros H; inversion H; subst. apply concat_res_err in En. apply in_map_iff in En.
+        destruct En as (i & Hi & Hiin). destruct (Hin i Hiin) as [Hi1 Hi2].
+        destruct (Hout o (or_introl eq_refl)) as [Ho1 Ho2]. destruct i as [hi mi], o as [ho mo]. cbn [fst snd] in *.
+        unfold connect_in in Hi. cbn [fst snd] in Hi. destruct (dims_eqb (m_dims mo) (m_dims mi)) eqn:Ed.
+        -- apply concat_res_err in Hi. apply in_map_iff in Hi. destruct Hi as (idx & Hv & Hidx).
+           eapply (sd_leaf objs p ms hi ho mi mo idx); eauto. apply dims_eqb_eq. exact Ed.
+        -- inversion Hi; subst. eapply (sd_dims objs p ms hi ho mi mo); eauto.
+           intros Eq. rewrite Eq, dims_eqb_refl in Ed. discriminate.
+      * intros H; inversion H; subst.
+        destruct (Hout o (or_introl eq_refl)) as [Ho1 Ho2]. destruct (Hout o2 (or_intror (or_introl eq_refl))) as [Hp1 Hp2].
+        destruct o as [ho mo], o2 as [ho2 mo2]. cbn [fst snd] in *.
+        eapply (sd_several objs p ms ho ho2 mo mo2); eauto.
+        intros ->. assert (Hnd : NoDup (filter is_out_port t)) by (apply NoDup_filter, tag_from_NoDup).
+        fold outs in Hnd. rewrite Eo in Hnd. inversion Hnd as [|? ? Hni Hnd']; subst. apply Hni. left.
+        rewrite Ho1 in Hp1. inversion Hp1. reflexivity.
+Qed.
+
+Inductive connect_defect (objs : list obj) (sigs : list sigt) : cerr -> Prop :=
+| cd_missing h h' x x' : nth_error sigs h = Some x -> nth_error sigs h' = Some x' ->
+    map fst (sort (flat_members x)) <> map fst (sort (flat_members x')) -> connect_defect objs sigs EMissing
+| cd_kind h h' p m m' : member_at sigs h p m -> member_at sigs h' p m' -> m_is_port m = false -> m_is_port m' = true ->
+    connect_defect objs sigs ESigPort
+| cd_width h h' p m m' : member_at sigs h p m -> member_at sigs h' p m' -> m_is_port m = true -> m_is_port m' = true ->
+    width (m_shape m) <> width (m_shape m') -> connect_defect objs sigs EWidth
+| cd_init h h' p m m' : member_at sigs h p m -> member_at sigs h' p m' -> m_is_port m = true -> m_is_port m' = true ->
+    m_init m <> m_init m' -> connect_defect objs sigs EInit
+| cd_several h h' p m m' : member_at sigs h p m -> member_at sigs h' p m' -> h <> h' ->
+    m_is_port m = true -> is_in (m_flow m) = false -> m_is_port m' = true -> is_in (m_flow m') = false ->
+    connect_defect objs sigs ESeveral
+| cd_dims h h' p m m' : member_at sigs h p m -> member_at sigs h' p m' ->
+    m_is_port m = true -> is_in (m_flow m) = true -> m_is_port m' = true -> is_in (m_flow m') = false ->
+    m_dims m' <> m_dims m -> connect_defect objs sigs EAssertDims
+| cd_leaf h h' p m m' idx e : member_at sigs h p m -> member_at sigs h' p m' ->
+    m_is_port m = true -> is_in (m_flow m) = true -> m_is_port m' = true -> is_in (m_flow m') = false ->
+    m_dims m' = m_dims m -> In idx (idx_paths (m_dims m')) ->
+    connect_value objs (h, PNs p ++ idx) (h', PNs p ++ idx) = Err e -> connect_defect objs sigs e
+| cd_only_in : has_in sigs -> ~ has_out sigs -> connect_defect objs sigs EOnlyIn.
+
+Lemma transpose_none f0 rest : transpose f0 rest = None -> exists l, In l rest /\ map fst l <> map fst f0.
+Proof.
+  intros H.
+  destruct (Forall_Exists_dec (fun l : list entry => map fst l = map fst f0)
+              (fun l => list_eq_dec (list_eq_dec Z.eq_dec) (map fst l) (map fst f0)) rest) as [F|E].
+  - destruct (transpose_some _ _ F) as [rows Hr]. congruence.
+  - apply Exists_exists in E. exact E.
+Qed.
+
+Lemma rowlike_member sigs p ms h m :
+  rowlike p ms (sorted_lists sigs) -> nth_error ms h = Some m -> member_at sigs h p m.
+Proof.
+  intros Hr Hm. destruct (Hr h m Hm) as (l & Hl & Hin). unfold sorted_lists in Hl.
+  apply nth_error_map_inv in Hl. destruct Hl as (x & Hx & ->). exists x. split; [exact Hx|]. apply (proj1 (in_sort _ _)) in Hin. exact Hin.
+Qed.
+
+Theorem connect_sigs_err objs sigs e : connect_sigs objs sigs = Err e -> connect_defect objs sigs e.
+Proof.
+  unfold connect_sigs. fold (sorted_lists sigs).
+  destruct (sorted_lists sigs) as [|f0 [|f1 rest]] eqn:Es; try discriminate.
+  destruct (conn_loop objs f0 (f1 :: rest) ([], false, false)) as [[[cs ai] ao]|e'] eqn:E.
+  - destruct (is_nil cs && ai && negb ao) eqn:Eb; [|discriminate]. intros H; inversion H; subst.
+    apply conn_loop_iff in E. destruct E as (rows & Ht & Hf). apply fold_steps_iff in Hf. destruct Hf as [_ Hst].
+    inversion Hst; subst. apply andb_prop in Eb. destruct Eb as [Eb Eo]. apply andb_prop in Eb. destruct Eb as [_ Ei].
+    simpl in Ei, Eo. apply negb_true_iff in Eo.
+    assert (Hrows : rows_of sigs = Some rows) by (unfold rows_of; rewrite Es; exact Ht).
+    apply cd_only_in.
+    + apply (rows_has_in _ _ Hrows). exact Ei.
+    + intros Ho. apply (rows_has_out _ _ Hrows) in Ho. congruence.
+  - intros H; inversion H; subst. destruct (conn_loop_err _ _ _ _ _ E) as [[-> Ht]|(p & ms & st0 & Hs & Hr)].
+    + destruct (transpose_none _ _ Ht) as (l & Hl & Hne). apply In_nth_error in Hl. destruct Hl as [h Hh].
+      assert (E0 : nth_error (sorted_lists sigs) 0 = Some f0) by (rewrite Es; reflexivity).
+      assert (Eh : nth_error (sorted_lists sigs) (S h) = Some l) by (rewrite Es; exact Hh).
+      unfold sorted_lists in E0, Eh. apply nth_error_map_inv in E0, Eh.
+      destruct E0 as (x0 & Hx0 & ->). destruct Eh as (x & Hx & ->). exact (cd_missing objs sigs (S h) 0%nat x x0 Hx Hx0 Hne).
+    + rewrite <- Es in Hr. pose proof (rowlike_member sigs p ms) as M. apply step_err in Hs.
+      destruct Hs as [h h' m m' H1 H2 K1 K2|h h' m m' H1 H2 K1 K2 K3|h h' m m' H1 H2 K1 K2 K3|h h' m m' H1 H2 K0 K1 K2
+                     |h h' m m' H1 H2 K1 K2 K3|h h' m m' idx e0 H1 H2 K1 K2 Kd K3 K4].
+      * exact (cd_kind objs sigs h h' p m m' (M h m Hr H1) (M h' m' Hr H2) K1 K2).
+      * exact (cd_width objs sigs h h' p m m' (M h m Hr H1) (M h' m' Hr H2) K1 K2 K3).
+      * exact (cd_init objs sigs h h' p m m' (M h m Hr H1) (M h' m' Hr H2) K1 K2 K3).
+      * apply out_port_iff in K1, K2. cbn [snd] in K1, K2. destruct K1, K2.
+        apply (cd_several objs sigs h h' p m m' (M h m Hr H1) (M h' m' Hr H2)); auto.
+      * apply in_port_iff in K1. apply out_port_iff in K2. cbn [snd] in K1, K2. destruct K1, K2.
+        apply (cd_dims objs sigs h h' p m m' (M h m Hr H1) (M h' m' Hr H2)); auto.
+      * apply in_port_iff in K1. apply out_port_iff in K2. cbn [snd] in K1, K2. destruct K1, K2.
+        apply (cd_leaf objs sigs h h' p m m' idx _ (M h m Hr H1) (M h' m' Hr H2)); auto.
+Qed.
+
+(* on compliant arguments without arrays of interfaces the only per-leaf failures are the two constant diagnostics *)
+Lemma connect_value_err_leaf objs ip op li lo e :
+  traverse objs ip = Ok li -> is_leaf li = true -> traverse objs op = Ok lo -> is_leaf lo = true ->
+  connect_value objs ip op = Err e ->
+  exists sh v, li = OConst sh v /\
+    ((e = EConstVar /\ forall sh' v', lo <> OConst sh' v') \/ (e = EConstDiff /\ exists sh' v', lo = OConst sh' v' /\ v <> v')).
+Proof.
+  intros Hi Li Ho Lo. unfold connect_value. rewrite Hi, Ho. destruct li; try discriminate.
+  destruct lo; try discriminate.
+  - intros H; inversion H; subst. exists sh, v. split; [reflexivity|]. left. split; [reflexivity|]. intros; discriminate.
+  - destruct (v =? v0) eqn:E; [discriminate|]. intros H; inversion H; subst. exists sh, v. split; [reflexivity|].
+    right. split; [reflexivity|]. exists sh0, v0. split; [reflexivity|]. apply Z.eqb_neq. exact E.
+Qed.
+
+(* which diagnostics are possible, and each only for its defect *)
+Theorem connect_error_sound objs sigs e :
+  check_args objs = Ok sigs -> (forall x, In x sigs -> nodims_sig x = true) ->
+  connect objs = Err e ->
+  connect_defect objs sigs e /\
+  (e = EMissing \/ e = ESigPort \/ e = EWidth \/ e = EInit \/ e = ESeveral \/ e = EAssertDims \/
+   e = EConstVar \/ e = EConstDiff \/ e = EOnlyIn).
+Proof.
+  intros Hca Hnd Hc. unfold connect in Hc. rewrite Hca in Hc. apply connect_sigs_err in Hc. split; [exact Hc|].
+  apply check_args_iff in Hca.
+  destruct Hc as [| | | | | |h h' p m m' idx e0 M1 M2 P1 I1 P2 O2 Hdm Hidx Hv|]; auto 10.
+  destruct (args_traversable objs sigs h' p m' idx Hca Hnd M2 P2 Hidx) as (lo & Ho & Lo).
+  assert (Hidx' : In idx (idx_paths (m_dims m))) by (rewrite <- Hdm; exact Hidx).
+  destruct (args_traversable objs sigs h p m idx Hca Hnd M1 P1 Hidx') as (li & Hi & Li).
+  destruct (connect_value_err_leaf _ _ _ _ _ _ Hi Li Ho Lo Hv) as (sh & v & _ & [[-> _]|[-> _]]); auto 10.
+Qed.
